@@ -200,6 +200,16 @@ func decisionTable(start *ssa.BasicBlock, cfg dtConfig) []dtLeaf {
 		if len(prev) > 0 {
 			from = prev[len(prev)-1]
 		}
+		// a block met for the third time on one path: a cycle that does not narrow the variable any further
+		occ := 0
+		for _, pb := range prev {
+			if pb == b {
+				occ++
+			}
+		}
+		if occ >= 2 {
+			return
+		}
 		steps++
 		if steps > cfg.Max || depth > 200 {
 			leaves = append(leaves, dtLeaf{Set: s, Effect: "undecided:exploration limit", Tags: tags, Block: b, From: from})
